@@ -5,6 +5,7 @@ cd "$(dirname "$0")/.."
 ID=$1; shift
 D=seeded/$ID
 PROPS="$@"; [ -z "$PROPS" ] && PROPS=$(python3 -c "import json;print(json.load(open('$D/meta.json'))['property'])")
+[ -n "$(git -C /repo status --porcelain)" ] && { echo "refusing: /repo has uncommitted changes (they would be lost by the revert)"; exit 2; }
 git -C /repo apply $PWD/$D/patch.diff || { echo "patch does not apply"; exit 2; }
 SAVE=$(mktemp -d); cp evidence/*.json $SAVE/ 2>/dev/null
 # evidence files describe the unchanged tree: whatever the seeded run writes is put back afterwards
